@@ -410,6 +410,111 @@ fn main() {
             limit(&mut cr.violations, 4);
             cr
         }));
+        // ---- two senders whose sessions differ only by their endpoint (source address - IPv4, IPv6 literals sharing their
+        // first groups -, group, port), same TSI, same TOI, same OTI and length, different bytes, no MD5: their packets
+        // interleaved in every rhythm. A Complete writer must hold exactly ONE sender's object, the one of its endpoint.
+        let pairs: Vec<(Option<&str>, &str, u16, Option<&str>, &str, u16)> = vec![
+            (Some("10.0.0.1"), "224.0.0.1", 3400, Some("10.0.0.2"), "224.0.0.1", 3400),
+            (Some("2001:db8::1"), "ff3e::1", 3400, Some("2001:db8::2"), "ff3e::1", 3400),
+            (Some("2001:db8:0:1::7"), "ff3e::1", 3400, Some("2001:db8:0:2::7"), "ff3e::1", 3400),
+            (Some("fe80::1"), "224.0.0.1", 3400, Some("fe80::1:1"), "224.0.0.1", 3400),
+            (None, "224.0.0.1", 3400, Some("10.0.0.1"), "224.0.0.1", 3400),
+            (None, "224.0.0.1", 3400, None, "224.0.0.2", 3400),
+            (None, "ff3e::1", 3400, None, "ff3e::2", 3400),
+            (None, "224.0.0.1", 3400, None, "224.0.0.1", 3401),
+            (Some("10.0.0.1:5000"), "224.0.0.1", 3400, Some("10.0.0.1:5001"), "224.0.0.1", 3400),
+        ];
+        let np = pairs.len();
+        let n_two = np * ctx.tier.pick(40usize, 2000);
+        gens.push(Gen::new("two_senders", n_two, move |ctx, i| {
+            let mut rng = Rng::keyed(ctx.seed, "C03two", 0, i as u64);
+            let (sa, ga, pa, sb, gb, pb) = pairs[i % np];
+            let epa = flute::core::UDPEndpoint::new(sa.map(|x| x.to_string()), ga.to_string(), pa);
+            let epb = flute::core::UDPEndpoint::new(sb.map(|x| x.to_string()), gb.to_string(), pb);
+            let mut cr = CaseResult::default();
+            let fec = *rng.pick(&[Fec::NoCode, Fec::Rs28, Fec::RaptorQ]);
+            let mut oti = OtiSpec::new(fec, 16, 4, if fec == Fec::NoCode { 0 } else { 1 });
+            oti.inband_fti = rng.chance(1, 2);
+            let len = rng.range(20, 200) as usize;
+            let mk = |rng: &mut Rng| {
+                let mut spec = SenderSpec::new(OtiSpec::new(Fec::NoCode, 4096, 8, 0));
+                spec.tsi = 1;
+                spec.fdt_carousel = CarouselSpec::DelayMs(3_600_000);
+                let mut o = ObjSpec::new(rng.bytes(len), "file:///two/o.bin");
+                o.oti = Some(oti.clone());
+                o.md5 = false;
+                emit(&spec, &[o], &EmitOpts { step_ms: 10, max_instants: 30, ..Default::default() })
+            };
+            let (a, b) = match (mk(&mut rng), mk(&mut rng)) {
+                (Ok(a), Ok(b)) => (a, b),
+                _ => return cr,
+            };
+            // interleave: strict alternation, bursts, or one session after the other
+            let mut order: Vec<(bool, usize)> = vec![];
+            let (mut ia, mut ib) = (0, 0);
+            let rhythm = rng.below(3);
+            while ia < a.stream.len() || ib < b.stream.len() {
+                let take_a = if ia >= a.stream.len() { false } else if ib >= b.stream.len() { true } else { match rhythm { 0 => (ia + ib) % 2 == 0, 1 => rng.chance(1, 2), _ => ia < a.stream.len() } };
+                if take_a {
+                    order.push((true, ia));
+                    ia += 1;
+                } else {
+                    order.push((false, ib));
+                    ib += 1;
+                }
+            }
+            let r = util::guarded(|| {
+                let (builder, log) = vh::mwriter::MonBuilder::new(Default::default());
+                let mut rx = flute::receiver::MultiReceiver::new(builder.clone(), Some(RxOpts::default().config), false);
+                for (is_a, k) in &order {
+                    let (ep, p) = if *is_a { (&epa, &a.stream[*k]) } else { (&epb, &b.stream[*k]) };
+                    let _ = rx.push(ep, &p.bytes, p.t);
+                }
+                drop(rx);
+                let l = log.borrow();
+                l.writers.iter().map(|w| (w.endpoint.clone(), w.state, w.data.clone())).collect::<Vec<_>>()
+            });
+            let writers = match r {
+                Ok(w) => w,
+                Err(p) => {
+                    cr.violations.push(Violation::new("panic", format!("{} @ {}", p.msg, p.short_loc())).with("site", p.file()).with("tag", "two_senders"));
+                    return cr;
+                }
+            };
+            let (da, db) = (&a.objs[0].data, &b.objs[0].data);
+            let wit = json!({"endpoint_a": format!("{:?}", epa), "endpoint_b": format!("{:?}", epb), "oti": oti.json(), "len": len, "rhythm": rhythm});
+            let mut completes = 0u64;
+            for (ep, st, data) in &writers {
+                if *st != WState::Complete {
+                    continue;
+                }
+                completes += 1;
+                let own = if *ep == epa { Some(da) } else if *ep == epb { Some(db) } else { None };
+                if own != Some(data) {
+                    let from_a = data.iter().zip(da.iter()).filter(|(x, y)| x == y).count();
+                    let from_b = data.iter().zip(db.iter()).filter(|(x, y)| x == y).count();
+                    cr.violations.push(Violation::new("complete_with_wrong_bytes", format!(
+                        "two senders on {:?} and {:?} (same TSI and TOI): a writer created for {:?} completed with {} bytes that are not that sender's object ({} bytes agree with A's object, {} with B's)",
+                        epa, epb, ep, data.len(), from_a, from_b))
+                        .with("tag", "two_senders").with("fec", fec.name()).with("ipv6", ga.contains(':') || sa.map(|x| x.matches(':').count() > 1).unwrap_or(false)).witness(wit.clone()));
+                }
+            }
+            // each session on its own is a clean, complete session
+            if completes != 2 && epa != epb {
+                cr.violations.push(Violation::new("two_senders_not_both_delivered", format!("two clean sessions on {:?} and {:?}: {} complete writer(s), 2 expected (writers: {:?})", epa, epb, completes, writers.iter().map(|w| (format!("{:?}", w.0.source_address), w.1)).collect::<Vec<_>>()))
+                    .with("tag", "two_senders").with("fec", fec.name()).witness(wit));
+            }
+            cr.count("histories", 1);
+            cr.count("writers", writers.len() as u64);
+            cr.count("completes", completes);
+            if completes > 0 {
+                cr.shape = Some(util::fnv(&format!("two|{}|{}|{}|{}", i % np, fec.name(), oti.inband_fti, rhythm)));
+            }
+            if i % 97 == 0 {
+                cr.sample = Some(json!({"endpoints": [format!("{:?}", epa), format!("{:?}", epb)], "completes": completes}));
+            }
+            cr
+        }));
         gens
     });
 }
